@@ -91,6 +91,28 @@ func c13BaseScenarios() []*c13Base {
 		b.res["r0_all"] = st.rends[0].all
 		out = append(out, b)
 	}
+	// 6. Low-Latency: the playlist changes at every poll (resource "ll.m3u8@k" is the answer to the k-th request), every
+	// playlist announces the next part as a preload hint, the last one has none
+	{
+		const rounds = 3
+		st, err := c10Build(c10Case{Container: "fmp4", Tracks: "v", Frags: 1, PDT: true, VOD: true, NSeg: rounds + 1})
+		if err != nil {
+			panic(err)
+		}
+		b := &c13Base{name: "ll", entry: "ll.m3u8", res: map[string][]byte{}}
+		for k := 0; k <= rounds; k++ {
+			var pl strings.Builder
+			fmt.Fprintf(&pl, "#EXTM3U\n#EXT-X-VERSION:9\n#EXT-X-TARGETDURATION:1\n#EXT-X-SERVER-CONTROL:CAN-BLOCK-RELOAD=YES,PART-HOLD-BACK=3.00000,CAN-SKIP-UNTIL=6.00000\n#EXT-X-PART-INF:PART-TARGET=1.00000\n#EXT-X-MEDIA-SEQUENCE:%d\n#EXT-X-MAP:URI=\"r0_init\"\n", k)
+			fmt.Fprintf(&pl, "#EXT-X-PROGRAM-DATE-TIME:2022-03-04T05:06:07.250Z\n#EXTINF:1.00000,\nseg%d.mp4\n", k)
+			if k < rounds {
+				fmt.Fprintf(&pl, "#EXT-X-PRELOAD-HINT:TYPE=PART,URI=\"part%d.mp4\"\n", k)
+			}
+			b.res[fmt.Sprintf("ll.m3u8@%d", k)] = []byte(pl.String())
+			b.res[fmt.Sprintf("part%d.mp4", k)] = st.rends[0].segs[k].Body
+		}
+		b.res["r0_init"] = st.rends[0].init
+		out = append(out, b)
+	}
 	// 4. MPEG-TS, multivariant, video + audio rendition (the rendition has its own downloader and MPEG-TS processor)
 	{
 		st, err := c10Build(c10Case{Container: "ts", Tracks: "v+a", Frags: 1, PDT: true, VOD: true, NSeg: 3})
@@ -412,7 +434,7 @@ func c13Mutations(base *c13Base, tier string) []c13Mut {
 	names := base.names()
 	for _, res := range names {
 		body := base.res[res]
-		isPL := strings.HasSuffix(res, ".m3u8")
+		isPL := strings.HasSuffix(res, ".m3u8") || strings.Contains(res, ".m3u8@")
 		isInit := strings.HasSuffix(res, "_init")
 		out = append(out, c13Mut{Base: base.name, Res: res, Kind: "empty", Desc: "empty body"})
 		for i := range names {
@@ -501,8 +523,16 @@ func c13RunCase(c *vh.Ctx, base *c13Base, m c13Mut) (sig, msg, outcome string) {
 		return "", "", "n/a"
 	}
 	srv := &stubServer{}
+	polls := 0
 	srv.handler = func(n int, path, rawQuery string, req *http.Request) srvResp {
 		name := path[strings.LastIndexByte(path, '/')+1:]
+		if base.name == "ll" && name == "ll.m3u8" {
+			// the k-th poll gets the k-th playlist (404 after the last one)
+			srv.mu.Lock()
+			name = fmt.Sprintf("ll.m3u8@%d", polls)
+			polls++
+			srv.mu.Unlock()
+		}
 		if name == m.Res {
 			return srvResp{Status: 200, Body: mut}
 		}
